@@ -5,6 +5,7 @@ go 1.26.8
 require (
 	filippo.io/edwards25519 v1.2.0
 	github.com/MixinNetwork/mixin v0.0.0
+	github.com/anishathalye/porcupine v1.3.0
 	github.com/dgraph-io/ristretto/v2 v2.4.2
 )
 
